@@ -1460,6 +1460,34 @@ pub fn exec_set<const N: usize>(cage: &mut Cage<Set<Key, N>>, op: &Value, ctx: &
                 Some(b) => json!(["b", b]),
             }
         }
+        "s_algebra" => {
+            // (traces) the container against a second set: lazy adaptors and predicates at any size
+            let mut b = Set::<Key, N>::new();
+            for c in op["b"].as_array().unwrap() {
+                let k = Key::new(c.as_u64().unwrap() as Cls, 1);
+                ctx.stash_serials.push(k.serial);
+                b.insert(k);
+            }
+            let b = Box::new(b);
+            let a = &cage.m;
+            let bb: &Set<Key, N> = &b;
+            let y: Option<Vec<Cls>> = match s(op, "kind") {
+                "union" => call(ctx, || a.union(bb).map(|k| k.class()).collect()),
+                "intersection" => call(ctx, || a.intersection(bb).map(|k| k.class()).collect()),
+                "difference" => call(ctx, || a.difference(bb).map(|k| k.class()).collect()),
+                _ => call(ctx, || a.symmetric_difference(bb).map(|k| k.class()).collect()),
+            };
+            let sub = call(ctx, || a.is_subset(bb));
+            let sup = call(ctx, || a.is_superset(bb));
+            let dis = call(ctx, || a.is_disjoint(bb));
+            ctx.allocs = 0; // (collecting into a Vec is the harness' doing)
+            ctx.notes.retain(|n| !n.msg.contains("allocator call"));
+            ctx.stash.push(b);
+            match (y, sub, sup, dis) {
+                (Some(y), Some(sub), Some(sup), Some(dis)) => json!({"y": y, "sub": sub, "sup": sup, "dis": dis}),
+                _ => json!(["panic"]),
+            }
+        }
         "s_default" => {
             match call(ctx, Set::<Key, N>::default) {
                 None => json!(["panic"]),
